@@ -10,6 +10,7 @@ import (
 	"sort"
 	"strconv"
 	"strings"
+	"syscall"
 	"time"
 
 	"github.com/pascaldekloe/mqtt"
@@ -400,6 +401,9 @@ func c16Adopt(c *run.Ctx, st *c16State, stopAgain, useFS bool, stats *c16Stats) 
 				// a directory whose name reads as a key nobody uses
 				os.Mkdir(filepath.Join(dir, "1abcd"), 0o700)
 				os.Mkdir(filepath.Join(dir, "07fff"), 0o700)
+				// other entries that are no files: a link to a directory, a named pipe
+				os.Symlink(dir, filepath.Join(dir, "1abce"))
+				syscall.Mkfifo(filepath.Join(dir, "07ffe"), 0o600)
 			}
 			w.Store.Inner = fs
 			stats.fs++
@@ -448,11 +452,37 @@ func c16Adopt(c *run.Ctx, st *c16State, stopAgain, useFS bool, stats *c16Stats) 
 	var cl *mqtt.Client
 	var warn []error
 	var fatal error
-	panicked := func() (p any) {
-		defer func() { p = recover() }()
+	adopted := make(chan any, 1)
+	go func() {
+		defer func() { adopted <- recover() }()
 		cl, warn, fatal = mqtt.AdoptSession(w.Store, &cfg)
-		return nil
 	}()
+	var panicked any
+	select {
+	case panicked = <-adopted:
+	case <-time.After(sim.StepTimeout):
+		s1 := strings.Join(sim.MqttStacks(), "\n")
+		starved := sim.Starved(1500 * time.Millisecond)
+		s2 := strings.Join(sim.MqttStacks(), "\n")
+		select {
+		case panicked = <-adopted:
+		default:
+			if !starved && s1 == s2 && s1 != "" {
+				c.Violate("adopt-blocks/"+dmgSig, "AdoptSession neither returns nor fails on a damaged Persistence", map[string]any{"stacks": s2, "damage": st.desc})
+			} else {
+				c.Inconclusive("AdoptSession slow")
+			}
+			c.Spoiled()
+			if dir != "" {
+				// whoever sits in a read of the named pipe holds the world lock: let go
+				if f, e := os.OpenFile(filepath.Join(dir, "07ffe"), os.O_WRONLY|syscall.O_NONBLOCK, 0); e == nil {
+					f.Close()
+				}
+				<-adopted
+			}
+			return nil
+		}
+	}
 	if panicked != nil {
 		c.Violate("adopt-panics", fmt.Sprintf("AdoptSession panicked on a damaged Persistence: %v", panicked), detail(nil))
 		return nil
